@@ -20,7 +20,7 @@ import (
 //   * the loaders that can see a name: the global loader always; module M when the context's loader is M's loader or the
 //     dependency loader, and the name starts with M.
 //
-// classes: has-without-file, has-misses-file, discover-mismatch (HasEntry / Discover of a file loader against the derived paths), found-without-file, missing-with-file, case-sensitive, wrong-name, parsed-twice, absent-side-effect,
+// classes: missing-with-definition (a definition made between lookups), has-without-file, has-misses-file, discover-mismatch (HasEntry / Discover of a file loader against the derived paths), found-without-file, missing-with-file, case-sensitive, wrong-name, parsed-twice, absent-side-effect,
 // error-not-located, definition-not-from-file, unstable, fault; misnamed-no-line and duplicate-redefine (known findings) are
 // failures of the `strict` op only.
 
@@ -99,6 +99,20 @@ func (o *oracle) loadersFor(key []string) []string {
 		}
 	}
 	return ls
+}
+
+// defVisible: is a definition held by file loader `ld` ("g" or a module name) on the route of the key?  The loaders that
+// are asked for the key, plus the context's own module loader (its cache is consulted before any routing)
+func (o *oracle) defVisible(ld string, key []string) bool {
+	for _, l := range o.loadersFor(key) {
+		if l == ld {
+			return true
+		}
+	}
+	if (strings.HasPrefix(o.s.via, "m:") || strings.HasPrefix(o.s.via, "f:")) && o.s.via[2:] == ld {
+		return true
+	}
+	return false
 }
 
 // loaderOf: which file loader indexes the path ("" = none: not below a types directory, or another extension)
@@ -518,8 +532,29 @@ func judge(s spec, outs []outcome, total map[string]int, out string, strict bool
 	reportedOnce := map[string]bool{}  // files an error has been reported for
 	anyReported := false               // some defect has surfaced in this op
 	answers := map[string]string{}     // key → first found/notfound answer
+	defNow := map[string][]string{}    // key → loaders ("g" or a module name) a definition has been made in SO FAR
 	for i, l := range s.lookups {
 		oc := outs[i]
+		if l.op == "def" {
+			// a definition made between lookups through another loader's DefiningLoader (no file): from now on the name
+			// must be found wherever that loader is on its route — 'found iff a file / definition exists NOW'
+			tags["def"] = true
+			id := strings.Join(lowerSegs(splitName(l.name)), "::")
+			switch oc.kind {
+			case "defined":
+				in := l.in
+				if strings.HasPrefix(in, "m:") {
+					in = in[2:]
+				}
+				defNow[id] = append(defNow[id], in)
+				delete(answers, id)
+			case "reported":
+				tags["def-"+oc.code] = true
+			default:
+				note("fault", "definition of "+l.name+" ended in "+oc.kind)
+			}
+			continue
+		}
 		if l.op == "has" {
 			// HasEntry of a file loader: true exactly when a file sits where the loader's kind of path derives the name
 			tags["has"] = true
@@ -567,6 +602,44 @@ func judge(s spec, outs []outcome, total map[string]int, out string, strict bool
 			// starts with while a type set of the sibling global loader lists it — whether the member is visible depends on
 			// whether that type set has been loaded; the property demands neither answer
 			tags["route-split"] = true
+			continue
+		}
+		if defs := defNow[id]; len(defs) > 0 {
+			tags["def-lookup"] = true
+			if len(o.candidates(key)) > 0 || len(o.providers(key)) > 0 {
+				// a definition AND a file for one name: two sources (cf. C15-duplicate-redefine); neither answer is demanded
+				tags["def-overlap"] = true
+				continue
+			}
+			visible := false
+			for _, d := range defs {
+				visible = visible || o.defVisible(d, key)
+			}
+			switch oc.kind {
+			case "found":
+				if !keyEq(lowerSegs(strings.Split(oc.name, "::")), key) {
+					note("wrong-name", fmt.Sprintf("%s loaded a definition named %s", l.name, oc.name))
+				} else if oc.tkind != "a" {
+					note("definition-not-from-file", fmt.Sprintf("%s answered with kind %s, the definition made is an alias", l.name, oc.tkind))
+				}
+			case "notfound":
+				if visible && validParts(key) && !anyReported {
+					note("missing-with-definition", fmt.Sprintf("%s not found although it has been defined in a loader on its route (%s)", l.name, strings.Join(defs, ",")))
+				}
+			case "reported":
+				anyReported = true
+				if oc.code != "PCORE_INVALID_CHARACTERS_IN_NAME" || validParts(key) {
+					note("error-not-located", fmt.Sprintf("%s: %s for a name that has a definition and no file", l.name, oc.code))
+				}
+			}
+			if len(oc.reads) > 0 {
+				clos, _ := o.closure(key)
+				for _, r := range oc.reads {
+					if _, ok := clos[r]; !ok {
+						note("absent-side-effect", fmt.Sprintf("lookup of the defined name %s read the unrelated file %s", l.name, r))
+					}
+				}
+			}
 			continue
 		}
 		cands := o.candidates(key)
